@@ -6,6 +6,7 @@ import (
 	"go/ast"
 	"go/parser"
 	"go/token"
+	"math/big"
 	"os"
 	"sort"
 	"strings"
@@ -32,6 +33,7 @@ type fnInfo struct {
 type intfnCtx struct {
 	fset   *token.FileSet
 	consts map[string]ast.Expr
+	subst  map[string]string // inlined single-assignment locals of the function being translated
 	gvars  map[string]bool
 	fns    map[string]*fnInfo // key: Go name or Recv.Method
 	order  []string
@@ -365,6 +367,22 @@ func (c *intfnCtx) stmts(fi *fnInfo, list []ast.Stmt, d int) (string, error) {
 		default:
 			return "", fmt.Errorf("assign op %s unsupported", s.Tok)
 		}
+		// a named intermediate that is never assigned again is inlined (the subset is pure), so that
+		// `return (ms - 1) / iv` and `lastMs := ms - 1; return lastMs / iv` give the same definition
+		if s.Tok == token.DEFINE && !assignedIn(rest, id.Name) {
+			if c.subst == nil {
+				c.subst = map[string]string{}
+			}
+			old, had := c.subst[id.Name]
+			c.subst[id.Name] = e
+			r, err := c.stmts(fi, rest, d)
+			if had {
+				c.subst[id.Name] = old
+			} else {
+				delete(c.subst, id.Name)
+			}
+			return r, err
+		}
 		r, err := c.stmts(fi, rest, d)
 		if err != nil {
 			return "", err
@@ -486,6 +504,9 @@ func (c *intfnCtx) expr(fi *fnInfo, e ast.Expr) (string, error) {
 		case "true", "false":
 			return e.Name, nil
 		}
+		if v, ok := c.subst[e.Name]; ok {
+			return v, nil
+		}
 		if v, ok := c.consts[e.Name]; ok {
 			return c.expr(fi, v)
 		}
@@ -493,6 +514,12 @@ func (c *intfnCtx) expr(fi *fnInfo, e ast.Expr) (string, error) {
 	case *ast.SelectorExpr:
 		if id, ok := e.X.(*ast.Ident); ok && id.Name == fi.recv && fi.recv != "" {
 			return fi.recv + "_" + e.Sel.Name, nil
+		}
+		if id, ok := e.X.(*ast.Ident); ok && id.Name == "time" {
+			if v, ok := map[string]string{"Nanosecond": "1", "Microsecond": "1000", "Millisecond": "1000000", "Second": "1000000000",
+				"Minute": "60000000000", "Hour": "3600000000000"}[e.Sel.Name]; ok {
+				return v, nil
+			}
 		}
 		if id, ok := e.X.(*ast.Ident); ok && id.Name == "math" {
 			switch e.Sel.Name {
@@ -525,6 +552,42 @@ func (c *intfnCtx) expr(fi *fnInfo, e ast.Expr) (string, error) {
 		y, err := c.expr(fi, e.Y)
 		if err != nil {
 			return "", err
+		}
+		// constant folding (Go semantics: truncating / and %), so that `1000000` and
+		// `int64(time.Millisecond / time.Nanosecond)` give the same generated literal
+		if a, ok := genIntLit(x); ok {
+			if b, ok := genIntLit(y); ok {
+				r := new(big.Int)
+				done := true
+				switch e.Op {
+				case token.ADD:
+					r.Add(a, b)
+				case token.SUB:
+					r.Sub(a, b)
+				case token.MUL:
+					r.Mul(a, b)
+				case token.QUO:
+					if b.Sign() == 0 {
+						done = false
+					} else {
+						r.Quo(a, b)
+					}
+				case token.REM:
+					if b.Sign() == 0 {
+						done = false
+					} else {
+						r.Rem(a, b)
+					}
+				default:
+					done = false
+				}
+				if done {
+					if r.Sign() < 0 {
+						return "(" + r.String() + ")", nil
+					}
+					return r.String(), nil
+				}
+			}
 		}
 		switch e.Op {
 		case token.ADD, token.SUB, token.MUL:
@@ -575,6 +638,47 @@ func (c *intfnCtx) expr(fi *fnInfo, e ast.Expr) (string, error) {
 		return "(" + callee.name + " " + strings.Join(args, " ") + ")", nil
 	}
 	return "", fmt.Errorf("expression %T unsupported at %s", e, c.fset.Position(e.Pos()))
+}
+
+// assignedIn reports whether name is assigned (=, :=, op=, ++, --) anywhere in stmts.
+func assignedIn(stmts []ast.Stmt, name string) bool {
+	found := false
+	for _, st := range stmts {
+		ast.Inspect(st, func(n ast.Node) bool {
+			switch x := n.(type) {
+			case *ast.AssignStmt:
+				for _, l := range x.Lhs {
+					if id, ok := l.(*ast.Ident); ok && id.Name == name {
+						found = true
+					}
+				}
+			case *ast.IncDecStmt:
+				if id, ok := x.X.(*ast.Ident); ok && id.Name == name {
+					found = true
+				}
+			}
+			return true
+		})
+	}
+	return found
+}
+
+// intLit parses a generated integer literal ("123", "(-5)").
+func genIntLit(x string) (*big.Int, bool) {
+	t := strings.TrimSpace(x)
+	for strings.HasPrefix(t, "(") && strings.HasSuffix(t, ")") {
+		t = strings.TrimSpace(t[1 : len(t)-1])
+	}
+	if t == "" {
+		return nil, false
+	}
+	for i, ch := range t {
+		if !(ch >= '0' && ch <= '9') && !(i == 0 && ch == '-' && len(t) > 1) {
+			return nil, false
+		}
+	}
+	v, ok := new(big.Int).SetString(t, 10)
+	return v, ok
 }
 
 func exprString(e ast.Expr) string {
